@@ -241,6 +241,9 @@ class Check(PropertyCheck):
                     break
         return f
 
+    def oracle_on_texts(self, texts):
+        return self.oracle_pairs(texts)
+
     def replay_case(self, case):
         if "run" in case:
             return self.oracle_runs([tuple(case["run"])])
